@@ -10,6 +10,7 @@ package certexchange
 //@ func (*Server).handleRequest
 //@   property C16
 //@   harness harness/server_limit_test.go
+//@   requires s.Store.powerTableFrequency > 0 && s.Store.powerTableFrequency <= 1048576
 //@   modifies auto
 //@   maypanic
 //@   at MarshalCBOR 1
